@@ -128,6 +128,7 @@ def _run(case, mirror, fee_obj=None):
 
 def run_case(case):
     fee_obj = kit.fee_model(case['fee'])          # one fee-model object serves both brokers
+    load().PercentFeeModel(commission_pct=0.0123, tax_pct=0.0456)     # an unrelated model built later must not matter
     a1, rate = _run(case, False, fee_obj)
     a2, _ = _run(case, True, fee_obj)
     c1 = {(a, n, side): c for a, n, c, x, side in a1}
